@@ -12,7 +12,7 @@ namespace SnowVerif.Model.HS
 open Bytes
 
 /-- What `_write_message` returns when the token loop and the payload encryption succeed. -/
-theorem writeInner_ok (S : Suite) (hs : HS) (p : Bytes) (cap : Nat) (w' : WS)
+theorem writeInner_ok_honest (S : Suite) (hs : HS) (p : Bytes) (cap : Nat) (w' : WS)
     (ht : hs.myTurn = true) (hp : hs.pos < hs.msgs.length)
     (hw : writeToks S cap (hs.msgs.getD hs.pos []) { hs := hs, acc := [], ev := [] } = (.ok (), w'))
     (hc1 : w'.acc.length + p.length + 16 ≤ cap)
@@ -42,7 +42,7 @@ open Bytes
 
 /-- What `_read_message` returns when the token loop succeeds and the payload field is the honest
     encryption of `p` under the state reached. -/
-theorem readInner_ok (S : Suite) (hDE : S.DecEnc) (hEL : S.EncLen) (hs : HS) (f p : Bytes) (cap : Nat) (R' : HS) (evr : List Event)
+theorem readInner_ok_honest (S : Suite) (hDE : S.DecEnc) (hEL : S.EncLen) (hs : HS) (f p : Bytes) (cap : Nat) (R' : HS) (evr : List Event)
     (ht : hs.myTurn = false) (hp : hs.pos < hs.msgs.length)
     (hr : readToks S (hs.msgs.getD hs.pos []) { hs := hs, ptr := f ++ fieldBytes S R'.sym p, ev := [] }
             = (.ok (), { hs := R', ptr := fieldBytes S R'.sym p, ev := [] ++ evr }))
@@ -133,7 +133,7 @@ theorem msgA (S : Suite) (hEL : S.EncLen) (hDE : S.DecEnc) (hPL : S.PubLen) (hPT
       rw [hw'] at this; exact this
     have hnW' : w'.hs.sym.hasKey = true → w'.hs.sym.cs.n ≠ CipherState.nonceMax :=
       fun _ => nonce_ne_max_of_lt _ (by omega)
-    have hWI := writeInner_ok S A p cap w' hturnW hlt hw' (by rw [hacc]; omega) (by rw [hacc]; omega) invW' hnW'
+    have hWI := writeInner_ok_honest S A p cap w' hturnW hlt hw' (by rw [hacc]; omega) (by rw [hacc]; omega) invW' hnW'
     have hfb := fieldBytes_length S hEL w'.hs.sym p
     have hsf := symAfterField_facts S w'.hs.sym p invW' hnW'
     -- reader
@@ -143,7 +143,7 @@ theorem msgA (S : Suite) (hEL : S.EncLen) (hDE : S.DecEnc) (hPL : S.PubLen) (hPT
     have hltR : B.pos < B.msgs.length := by rw [hposR, hmsgsR]; exact hlt
     have hrd0 := hrd { hs := B, ptr := f ++ fieldBytes S R1.sym p, ev := [] } (fieldBytes S R1.sym p) rfl rfl
     rw [← hposR, ← hmsgsR] at hrd0
-    have hRI := readInner_ok S hDE hEL B f p capr R1 evr1 hturnR hltR hrd0
+    have hRI := readInner_ok_honest S hDE hEL B f p capr R1 evr1 hturnR hltR hrd0
       (by rw [List.length_append, hsymR1, hfb]; split <;> omega) hcapr (by rw [hsymR1]; exact invW')
       (by rw [hsymR1]; exact hnW')
     have hfrR := readToks_frame S (B.msgs.getD B.pos []) { hs := B, ptr := f ++ fieldBytes S R1.sym p, ev := [] }
@@ -267,7 +267,7 @@ theorem msgB (S : Suite) (hEL : S.EncLen) (hDE : S.DecEnc) (hPL : S.PubLen) (hPT
       rw [hw'] at this; exact this
     have hnW' : w'.hs.sym.hasKey = true → w'.hs.sym.cs.n ≠ CipherState.nonceMax :=
       fun _ => nonce_ne_max_of_lt _ (by omega)
-    have hWI := writeInner_ok S B p cap w' hturnW hlt hw' (by rw [hacc]; omega) (by rw [hacc]; omega) invW' hnW'
+    have hWI := writeInner_ok_honest S B p cap w' hturnW hlt hw' (by rw [hacc]; omega) (by rw [hacc]; omega) invW' hnW'
     have hfb := fieldBytes_length S hEL w'.hs.sym p
     have hsf := symAfterField_facts S w'.hs.sym p invW' hnW'
     -- reader
@@ -277,7 +277,7 @@ theorem msgB (S : Suite) (hEL : S.EncLen) (hDE : S.DecEnc) (hPL : S.PubLen) (hPT
     have hltR : A.pos < A.msgs.length := by rw [hposR, hmsgsR]; exact hlt
     have hrd0 := hrd { hs := A, ptr := f ++ fieldBytes S R1.sym p, ev := [] } (fieldBytes S R1.sym p) rfl rfl
     rw [← hposR, ← hmsgsR] at hrd0
-    have hRI := readInner_ok S hDE hEL A f p capr R1 evr1 hturnR hltR hrd0
+    have hRI := readInner_ok_honest S hDE hEL A f p capr R1 evr1 hturnR hltR hrd0
       (by rw [List.length_append, hsymR1, hfb]; split <;> omega) hcapr (by rw [hsymR1]; exact invW')
       (by rw [hsymR1]; exact hnW')
     have hfrR := readToks_frame S (A.msgs.getD A.pos []) { hs := A, ptr := f ++ fieldBytes S R1.sym p, ev := [] }
